@@ -99,7 +99,7 @@ func (v *Value) String() string {
 	case IntValue, FloatValue, EnumValue, BooleanValue, NullValue:
 		return v.Raw
 	case StringValue, BlockValue:
-		return strconv.Quote(v.Raw)
+		return quoteString(v.Raw)
 	case ListValue:
 		var val []string
 		for _, elem := range v.Children {
@@ -115,6 +115,41 @@ func (v *Value) String() string {
 	default:
 		panic(fmt.Errorf("unknown value kind %d", v.Kind))
 	}
+}
+
+// quoteString renders s as a GraphQL StringValue literal. Unlike strconv.Quote
+// it only produces escape sequences a GraphQL lexer understands; everything
+// that may legally appear inside a string is written as is.
+func quoteString(s string) string {
+	var b strings.Builder
+	b.Grow(len(s) + 2)
+	b.WriteByte('"')
+	for i := 0; i < len(s); i++ {
+		c := s[i]
+		switch c {
+		case '"', '\\':
+			b.WriteByte('\\')
+			b.WriteByte(c)
+		case '\b':
+			b.WriteString(`\b`)
+		case '\f':
+			b.WriteString(`\f`)
+		case '\n':
+			b.WriteString(`\n`)
+		case '\r':
+			b.WriteString(`\r`)
+		case '\t':
+			b.WriteString(`\t`)
+		default:
+			if c < 0x20 {
+				fmt.Fprintf(&b, `\u%04x`, c)
+			} else {
+				b.WriteByte(c)
+			}
+		}
+	}
+	b.WriteByte('"')
+	return b.String()
 }
 
 func (v *Value) Dump() string {
